@@ -11,7 +11,7 @@ from vlib.runner import Part
 
 PROPERTY = "C12"
 RULE = (
-    "Families R(RC), R(RQ), R(RC)(RC), R(RC)(RQ), R(C[RW]), RL(RQ) with generating time constants >= 1.5 decades apart and >= 1 "
+    "Families R(RC), R(RQ), R(RC)(RC), R(RC)(RQ), R(C[RW]), RL(RQ) (and the 11-element R(RC)x5 for the invariants) with generating time constants >= 1.5 decades apart and >= 1 "
     "decade inside a 7-decade grid (10 points per decade); start = truth x 10^U(-0.45, 0.45) per free parameter; random subsets "
     "of fixed parameters; random limit boxes containing truth and start (some tight); optional constraint expressions built "
     "from generate_fit_identifiers that the truth satisfies. Invariants on every fit over the {9 methods} x {4 weights} grid "
@@ -19,7 +19,7 @@ RULE = (
     "returned circuit, fixed parameters bit-equal to their initial value, constraint expressions hold (rel 1e-9), the parameter "
     "table and both data frames report exactly the returned circuit's values and fixed flags, the result's impedances are the "
     "returned circuit's impedances, the input circuit is unchanged. Recovery with the default automatic method/weight: "
-    "parameters equal the truth (rel 1e-3 up to permutation of structurally identical branches) and pseudo chi-squared <= 1e-10 "
+    "parameters equal the truth (rel 1e-3 up to permutation of structurally identical branches) and pseudo chi-squared <= 1e-6 "
     "- asserted per case for the single-arc families, by a frozen rate (>= 0.85) for the two-arc families. Non-trivial: >= 1 free "
     "parameter moved by > 5 % from its start."
 )
@@ -33,7 +33,8 @@ FLOOR = 0.3
 METHODS = ["leastsq", "least_squares", "nelder", "lbfgsb", "powell", "cg", "bfgs", "tnc", "slsqp"]
 WEIGHTS = ["unity", "modulus", "proportional", "boukamp"]
 FAMILIES = ["R(RC)", "R(RQ)", "R(RC)(RC)", "R(RC)(RQ)", "R(C[RW])", "RL(RQ)"]
-REQUIRED_CLASSES = {t: ["family:" + f for f in FAMILIES] + ["has-fixed", "has-constraint", "tight-limits", "recovery", "list-of-methods"] for t in ("quick", "thorough")}
+LONG = "R(RC)(RC)(RC)(RC)(RC)"  # 11 elements: running identifiers 0 and 10 (invariants only)
+REQUIRED_CLASSES = {t: ["family:" + f for f in FAMILIES + [LONG]] + ["has-fixed", "has-constraint", "tight-limits", "recovery", "recovery-with-constraint", "list-of-methods"] for t in ("quick", "thorough")}
 F_GRID = np.logspace(5, -2, 71)
 
 
@@ -47,6 +48,12 @@ def truth(draw, family):
     t2 = t1 * 10.0 ** draw(st.floats(1.5, max(1.5, min(3.0, hi - math.log10(t1)))))
     R1, R2 = scale * draw(st.floats(0.5, 5)), scale * draw(st.floats(0.5, 5))
     n = draw(st.floats(0.75, 0.95))
+    if family == LONG:
+        out = [{"R": R0}]
+        for k in range(5):
+            Rk = scale * draw(st.floats(0.5, 5))
+            out += [{"R": Rk}, {"C": 10.0 ** (lo + 1.05 * k + 0.2) / Rk}]
+        return out
     if family == "R(RC)":
         return [{"R": R0}, {"R": R1}, {"C": t1 / R1}]
     if family == "R(RQ)":
@@ -62,7 +69,7 @@ def truth(draw, family):
 
 @st.composite
 def fit_case(draw, recovery):
-    family = draw(st.sampled_from(FAMILIES))
+    family = draw(st.sampled_from(FAMILIES + ([LONG] if not recovery else [])))
     tr = draw(truth(family))
     start, fixed, limits = [], [], []
     for el in tr:
@@ -83,7 +90,7 @@ def fit_case(draw, recovery):
         fixed.append(fx)
         limits.append(lim)
     constraint = None
-    if not recovery and family in ("R(RC)(RC)", "R(RC)(RQ)") and draw(st.integers(0, 2)) == 0:
+    if family in ("R(RC)(RC)", "R(RC)(RQ)") and draw(st.integers(0, 2)) == 0:
         constraint = draw(st.sampled_from(["ratio-expression", "ratio-variable"]))
     if recovery:
         method, weight, procs = "auto", "auto", draw(st.sampled_from([1, 4]))
@@ -196,6 +203,8 @@ def body(ctx, case):
     # recovery
     if case["recovery"]:
         labels.add("recovery")
+        if constraint_check:
+            labels.add("recovery-with-constraint")
         labels.add("family-recovery:" + case["family"])
         got = [e.get_values() for e in r_els]
         def close(g, t):
@@ -204,7 +213,7 @@ def body(ctx, case):
         if not rec and case["family"] == "R(RC)(RC)":
             t = case["truth"]
             rec = close(got, [t[0], t[3], t[4], t[1], t[2]])
-        rec = rec and res.pseudo_chisqr <= 1e-10
+        rec = rec and res.pseudo_chisqr <= 1e-6
         single = case["family"] in ("R(RC)", "R(RQ)")
         ctx.observe("recovered:" + ("single-arc" if single else "two-arc"), 1.0 if rec else 0.0)
         labels.add("recovered" if rec else "not-recovered:" + case["family"])
